@@ -277,10 +277,20 @@ def resolve_sources(pm: PM, cls: ClassInfo, fn: FuncInfo, expr: ast.expr, depth:
     private helper is followed to the arguments at the helper's call sites inside the class"""
     ff = FuncFacts.of(fn)
     out: set[str] = set()
+
+    def sub(o) -> str:
+        # a subscript by a local that is just another name for an attribute / literal reads as that attribute / literal
+        sl = getattr(o.node, "slice", None)
+        if isinstance(sl, ast.Name):
+            ps = ff.paths(sl, spine_only=True)
+            if len(ps) == 1 and not ps[0].ops and ps[0].atom.kind in ("selfattr", "const"):
+                return f"[{ps[0].atom.name}]"
+        return f"[{o.name}]"
+
     for p in ff.paths(expr, spine_only=True):
         a = p.atom
         if a.kind == "selfattr":
-            out.add(a.name + "".join(f"[{o.name}]" for o in p.ops if o.kind == "subscript"))
+            out.add(a.name + "".join(sub(o) for o in p.ops if o.kind == "subscript"))
         elif a.kind == "const":
             out.add("const:" + a.name)
         elif a.kind == "param":
@@ -426,3 +436,110 @@ def effective_guards(ff: FuncFacts, node: ast.AST) -> list[tuple[ast.expr, bool,
             t, pol = t.operand, not pol
         out.append((t, pol, g.kind))
     return out
+
+
+def atomic_conditions(ff: FuncFacts, node: ast.AST, kinds=("if", "early-exit", "ifexp", "boolop", "while")) -> list[tuple[ast.expr, bool]]:
+    """the guards of ``node`` broken into atoms that must ALL hold: `a and b` (true) gives a, b; `a or b` (false) gives
+    not a, not b; `not x` flips; a conjunction that must be false or a disjunction that must be true stays one atom"""
+    out: list[tuple[ast.expr, bool]] = []
+
+    def add(t, pol):
+        while isinstance(t, ast.UnaryOp) and isinstance(t.op, ast.Not):
+            t, pol = t.operand, not pol
+        if isinstance(t, ast.BoolOp) and ((isinstance(t.op, ast.And) and pol) or (isinstance(t.op, ast.Or) and not pol)):
+            for v in t.values:
+                add(v, pol)
+        else:
+            out.append((t, pol))
+
+    for t, pol, kind in effective_guards(ff, node):
+        if kind in kinds:
+            add(t, pol)
+    return out
+
+
+_FLIP = {"Lt": "Gt", "Gt": "Lt", "LtE": "GtE", "GtE": "LtE", "Eq": "Eq", "NotEq": "NotEq"}
+_NEGATE = {"Lt": "GtE", "GtE": "Lt", "Gt": "LtE", "LtE": "Gt", "Eq": "NotEq", "NotEq": "Eq", "In": "NotIn", "NotIn": "In", "Is": "IsNot", "IsNot": "Is"}
+
+
+def cmp_forms(t: ast.expr, pol: bool = True) -> list[tuple[str, ast.expr, ast.expr]]:
+    """the binary comparison that holds when ``t`` has truth value ``pol``, in both operand orders:
+    `not (a < b)` -> [('GtE', a, b), ('LtE', b, a)].  [] when ``t`` is not a single comparison."""
+    while isinstance(t, ast.UnaryOp) and isinstance(t.op, ast.Not):
+        t, pol = t.operand, not pol
+    if not (isinstance(t, ast.Compare) and len(t.ops) == 1):
+        return []
+    op = type(t.ops[0]).__name__
+    if op not in _NEGATE:
+        return []
+    if not pol:
+        op = _NEGATE[op]
+    a, b = t.left, t.comparators[0]
+    out = [(op, a, b)]
+    if op in _FLIP:
+        out.append((_FLIP[op], b, a))
+    return out
+
+
+def holds(t: ast.expr, pol: bool, op: str, left, right) -> bool:
+    """does the condition (t is pol) say `<left> op <right>` - ``left`` / ``right`` are predicates on expressions"""
+    return any(o == op and left(a) and right(b) for o, a, b in cmp_forms(t, pol))
+
+
+def if_chain(node: ast.If) -> tuple[list[tuple[ast.expr, list[ast.stmt]]], list[ast.stmt] | None]:
+    """branches of an if / elif / ... chain [(test, body)] and the final else body (None if absent)"""
+    out = []
+    cur = node
+    while True:
+        out.append((cur.test, cur.body))
+        if len(cur.orelse) == 1 and isinstance(cur.orelse[0], ast.If):
+            cur = cur.orelse[0]
+            continue
+        return out, (cur.orelse or None)
+
+
+def chain_heads(fn_node: ast.AST) -> list[ast.If]:
+    """the If statements of a function that are not the `elif` continuation of another one"""
+    conts = set()
+    for n in walk_no_nested(fn_node):
+        if isinstance(n, ast.If) and len(n.orelse) == 1 and isinstance(n.orelse[0], ast.If):
+            conts.add(id(n.orelse[0]))
+    return [n for n in walk_no_nested(fn_node) if isinstance(n, ast.If) and id(n) not in conts]
+
+
+def switch_cases(node: ast.If) -> tuple[str, list[tuple[set, list[ast.stmt]]], list[ast.stmt] | None] | None:
+    """read an if / elif chain as a multi-way branch on ONE subject (the normal form of `match subject:`):
+    every test is `subject == literal`, `subject is True/False/None`, `isinstance(subject, C)`, `subject in (literals)`
+    or an `or` of those.  -> (subject text, [(set of case keys, body)], default body).  Keys: python constants, or
+    'type:<name>' for isinstance tests.  None when the chain does not have this shape."""
+    branches, default = if_chain(node)
+    subject = None
+    out = []
+
+    def keys_of(t) -> tuple[str, set] | None:
+        if isinstance(t, ast.BoolOp) and isinstance(t.op, ast.Or):
+            subj, ks = None, set()
+            for v in t.values:
+                r = keys_of(v)
+                if r is None or (subj is not None and r[0] != subj):
+                    return None
+                subj = r[0]
+                ks |= r[1]
+            return (subj, ks) if subj is not None else None
+        if isinstance(t, ast.Call) and isinstance(t.func, ast.Name) and t.func.id == "isinstance" and len(t.args) == 2:
+            cs = t.args[1].elts if isinstance(t.args[1], ast.Tuple) else [t.args[1]]
+            return norm(t.args[0]), {"type:" + (dotted(c) or norm(c)).split(".")[-1] for c in cs}
+        for op, a, b in cmp_forms(t, True):
+            if op in ("Eq", "Is") and isinstance(b, ast.Constant) and not isinstance(a, ast.Constant):
+                return norm(a), {b.value}
+            if op == "In" and isinstance(b, (ast.Tuple, ast.List, ast.Set)) and all(isinstance(x, ast.Constant) for x in b.elts):
+                return norm(a), {x.value for x in b.elts}
+        return None
+
+    for t, body in branches:
+        r = keys_of(t)
+        if r is None or (subject is not None and r[0] != subject):
+            return None
+        subject = r[0]
+        out.append((r[1], body))
+    return subject, out, default
